@@ -210,6 +210,8 @@ static void mudlib_error_handler (const char *err, int catch_flag) {
 }
 
 void error_handler (const char *err) {
+  int eval_cost_spent;
+
   /* in case we're going to longjmp() from load_object or destruct_object */
   reset_destruct_object_limits();
   reset_load_object_limits();
@@ -255,6 +257,14 @@ void error_handler (const char *err) {
    * way to the driver or to a safe_apply.  Flags that were already pending when
    * that context was saved (a limit error that is still being reported: this
    * may be a safe_apply made by the master's error_handler()) stay. */
+  /* "Too long evaluation" that ends in a safe_apply made from inside a running
+   * evaluation: the interpreter has re-armed eval_cost so that the error can be
+   * reported; the evaluation that made the call must not go on with that fresh
+   * budget (a loop around a caught error whose report by the master runs out of
+   * budget would never end).  It gets what it takes to reach its next
+   * instruction, where the error is raised again, outside the safe_apply. */
+  eval_cost_spent = get_error_state (ES_MAX_EVAL_COST) && current_error_context &&
+    current_error_context->save_csp >= control_stack;
   clear_error_state ();
   if (current_error_context)
     set_error_state (current_error_context->save_error_state);
@@ -265,6 +275,8 @@ void error_handler (const char *err) {
       debug_message_with_location (err);
       dump_trace (g_trace_flag);
 
+      if (eval_cost_spent)
+        eval_cost = 1;
       if (current_error_context)
         longjmp (current_error_context->context, 1);
       fatal ("failed longjmp() or no error context for error.");
@@ -301,6 +313,8 @@ void error_handler (const char *err) {
 
   in_error = 0;
 
+  if (eval_cost_spent)
+    eval_cost = 1;
   if (current_error_context)
     longjmp (current_error_context->context, 1);
   fatal ("failed longjmp() or no error context for error.");
